@@ -506,6 +506,29 @@ theorem safeFinish_good {declared : Nat} {m m3 : M} {r : Res} {f : Frame} {e0 : 
     have : m3.ctxs = [] := hr
     rw [hx] at this; cases this
 
+/-- stronger form: safe_apply always COMPLETES (it absorbs every error of the applied function) with both stacks and
+    the chain of its start state — for every number of passed and declared arguments -/
+theorem safeFinish_total {declared : Nat} {m m3 : M} {r : Res} {f : Frame} {e0 : Ctx}
+    (hv : m3.vs = List.replicate declared Slot.val ++ m.vs) (hc : m3.cs = f :: m.cs)
+    (hx : m3.ctxs = e0 :: m.ctxs) (hr : Good m3 r) :
+    ∃ m', safeFinish (ctxOf m) m.ctxs declared r = .ok m' ∧ Same m m' := by
+  cases r with
+  | ok m5 =>
+    obtain ⟨m6, hl6, h6v, h6c, h6x⟩ := leaveCall_spec (k := .other masterVal) (fs := [f]) (m := { m with ctxs := e0 :: m.ctxs })
+      (hr.vs.trans hv) rfl (hr.cs.trans hc) (hr.ctxs.trans hx)
+    obtain ⟨m7, hp7, h7v, h7c, h7x⟩ := popN_exact (n := 1) (m := m6) (dv0 := [Slot.val]) h6v rfl
+    exact ⟨popContext m.ctxs m7, by simp only [safeFinish, hl6, hp7], ⟨h7v, h7c.trans h6c, rfl⟩⟩
+  | err m6 =>
+    obtain ⟨dv, hdv⟩ := hr.vs
+    obtain ⟨dc, hdc⟩ := hr.cs
+    obtain ⟨m7, h1, h2, h3, _, _⟩ := restoreContext_ext m6 (dv ++ List.replicate declared Slot.val) m.vs (dc ++ [f]) m.cs m.cg
+      (by rw [hdv, hv]; simp) (by rw [hdc, hc]; simp) m.loadDepth m.restrictDestruct
+    have h1 : restoreContext (ctxOf m) m6 = .ok m7 := h1
+    exact ⟨popContext m.ctxs m7, by simp only [safeFinish, h1], ⟨h2, h3, rfl⟩⟩
+  | crash w m1 =>
+    have : m3.ctxs = [] := hr
+    rw [hx] at this; cases this
+
 theorem depthCheck_spec {k : CallKind} {m1 mFull : M} (h : depthCheck k m1 = some mFull) : Ext m1 mFull := by
   unfold depthCheck at h
   split at h
@@ -519,6 +542,7 @@ theorem depthCheck_spec {k : CallKind} {m1 mFull : M} (h : depthCheck k m1 = som
 theorem execOp_good_of {o : Op} (h : ∀ m, Good m (execCore o m)) (m : M) : Good m (execOp o m) := by
   unfold execOp
   split
+  · exact h _
   · exact h _
   · split
     · exact raise_good _ (tick_same m).toExt
@@ -618,6 +642,7 @@ theorem execCore_good : ∀ (o : Op) (m : M), Good m (execCore o m)
         exact safeFinish_good (f := f) (e0 := econ0) h3v (by rw [h3c, ec, h1c]; rfl) (by rw [h3x, ex, h1x]; rfl)
           (thenTick_good (exec_good body m3))
   | .raise msg, m => by simp only [execCore]; exact raise_good _ (Same.rfl' m).toExt
+  | .craise msg, m => by simp only [execCore]; exact raise_good _ (Same.rfl' m).toExt
   | .throw_ v, m => by simp only [execCore]; exact throwVal_good _ (Same.rfl' m).toExt
   | .raiseLimit, m => by simp only [execCore]; exact raise_good _ ⟨⟨[], rfl⟩, ⟨[], rfl⟩, rfl⟩
   | .load body, m => by
